@@ -273,8 +273,9 @@ class Monitor:
             if ref_sig != sig and not mutated:
                 what_part = "status" if ref_sig[0] != sig[0] else ("returned value" if ref_sig[1] != sig[1] else "output file bytes")
                 self.fail(f"C18:repeat-differs:{name}",
-                          f"{name} called again with the same inputs returned a different {what_part} after {len(history) - len(ref_hist)} intervening calls",
-                          dict(case, kind="repeat", history=[list(h) for h in history]))
+                          f"{name} called again with the same inputs on the same shared objects returned a different {what_part} "
+                          f"(first call after {len(ref_hist)} earlier calls of its session, this call after {len(history)})",
+                          dict(case, kind="repeat", history=[list(h) for h in history], ref_history=[list(h) for h in ref_hist]))
         else:
             self.ref[key] = (sig, list(history))
         # --- file holds what was returned
@@ -305,6 +306,9 @@ class Monitor:
         return [(n, i) for n, bs in self.E.items() for i in range(len(bs))]
 
     def session(self, wi, order):
+        """one session on the shared world `wi`; analysis objects are rebuilt lazily inside the session, so object state
+        left by one session cannot hide a history dependence in the next"""
+        self.world(wi).objs.clear()
         hist = []
         for (n, i) in order:
             self.call(wi, n, i, hist)
@@ -438,6 +442,8 @@ def search(run, broken):
             continue
         if b["kind"] == "correspondence" and b["name"].split(":", 1)[1] in mutated:
             continue        # explained by the registered mutates-input violation
+        if b["kind"] == "translator" and any(k.split(":", 2)[2].split(":")[0] in b.get("detail", "") for bb in broken for k, _, _ in bb.get("failing", [])):
+            continue        # the routine the translator no longer recognises has a concrete failing input
         if b["kind"] in ("proof", "audit", "axioms") and "C18_all_routines" in (b.get("name", "") + b.get("detail", "")) and not missing and (rejected or wrejected):
             continue        # every rejected routine has a concrete failing input
         unexplained.append(b)
@@ -470,8 +476,8 @@ def replay(run, rp):
         if c["entry"] not in M.E or c["idx"] >= len(M.E[c["entry"]]):
             return False
         if c.get("kind") == "repeat":
-            hist = [tuple(h) for h in c.get("history", [])]
-            M.session(wi, hist + [(c["entry"], c["idx"])])
+            M.session(wi, [tuple(h) for h in c.get("ref_history", [])] + [(c["entry"], c["idx"])])
+            M.session(wi, [tuple(h) for h in c.get("history", [])] + [(c["entry"], c["idx"])])
         else:
             M.session(wi, [(c["entry"], c["idx"]), (c["entry"], c["idx"])])
         return any(k == rp.get("key") for k, _, _ in M.failing)
